@@ -1055,3 +1055,104 @@ def rf130(run):
         raise F.AnalysisBroken('RF130: no on-demand creations found in the generator')
     run.min_instances(rule, 1) if False else None
     return n
+
+
+# ---------------------------------------------------------------------------------------------
+# RF137: the bb_insn of a deleted instruction is not used again
+# ---------------------------------------------------------------------------------------------
+
+def rf137(run):
+    rule = 'RF137'
+    run.rule(rule, 'mir-gen.c: ssa_delete_insn / gen_delete_insn (insn) free the bb_insn attached to the instruction (insn->data), '
+                   'delete_bb_insn (bb_insn) frees its argument.  In every function, a local bb_insn variable that is tied to the deleted '
+                   'instruction (`insn = b->insn` or `b = insn->data` earlier in the function) is not read on any path behind the deleting '
+                   'call until it is assigned again (forward may-analysis over the CFG; a test `if (ssa_delete_insn_if_dead_p (…)) continue` '
+                   'kills on its true edge only)')
+    tu = run.tu('gen')
+    KILL_I = ('ssa_delete_insn', 'gen_delete_insn')
+    KILL_B = ('delete_bb_insn',)
+    n = 0
+    for g in tu.func_list:
+        if g.body is None or not g.file.startswith('/repo') or g.cfg_raw is None:
+            continue
+        calls = [x for x in g.walk() if x['k'] == 'CallExpr' and x.get('callee') in KILL_I + KILL_B]
+        if not calls:
+            continue
+        # alias pairs (insn variable -> bb_insn variables)
+        pairs = {}
+        for x in g.walk():
+            if x['k'] == 'BinaryOperator' and x['op'] == '=':
+                l, r = F.strip(x['c'][0]), F.strip(x['c'][1])
+                if l['k'] == 'DeclRefExpr' and r['k'] == 'MemberExpr' and r['n'] == 'insn' and F.strip(r['c'][0])['k'] == 'DeclRefExpr':
+                    pairs.setdefault(l['n'], set()).add(F.strip(r['c'][0])['n'])      # insn = b->insn
+                if l['k'] == 'DeclRefExpr' and r['k'] == 'MemberExpr' and r['n'] == 'data' and F.strip(r['c'][0])['k'] == 'DeclRefExpr':
+                    pairs.setdefault(F.strip(r['c'][0])['n'], set()).add(l['n'])      # b = insn->data
+            if x['k'] == 'DeclStmt':
+                for d in x.get('decls', []):
+                    r = F.strip(d['init']) if d.get('init') is not None else None
+                    if r is not None and r['k'] == 'MemberExpr' and F.strip(r['c'][0])['k'] == 'DeclRefExpr':
+                        if r['n'] == 'insn':
+                            pairs.setdefault(d['n'], set()).add(F.strip(r['c'][0])['n'])
+                        if r['n'] == 'data':
+                            pairs.setdefault(F.strip(r['c'][0])['n'], set()).add(d['n'])
+        cfg = g.cfg
+        run.functions_analysed.add(('gen', g.name))
+
+        def kills(x):
+            a = [F.strip(y) for y in F.call_args(x)]
+            if x['callee'] in KILL_I and len(a) > 1:
+                if a[1]['k'] == 'DeclRefExpr':
+                    return set(pairs.get(a[1]['n'], ()))
+                if a[1]['k'] == 'MemberExpr' and a[1]['n'] == 'insn' and F.strip(a[1]['c'][0])['k'] == 'DeclRefExpr':
+                    return {F.strip(a[1]['c'][0])['n']}
+            if x['callee'] in KILL_B and len(a) > 1 and a[1]['k'] == 'DeclRefExpr':
+                return {a[1]['n']}
+            return set()
+        hits = {}
+
+        def transfer(B, dead, report):
+            dead = set(dead)
+            seen = set()
+            for e in B.elems:
+                for x in reversed(list(cfg.local_walk(e))):
+                    if x['i'] in seen:
+                        continue
+                    seen.add(x['i'])
+                    if x['k'] == 'DeclRefExpr' and x['n'] in dead:
+                        p_ = g.parent_of(x)
+                        is_def = p_ is not None and p_['k'] == 'BinaryOperator' and p_['op'] == '=' and F.strip(p_['c'][0]) is x
+                        if not is_def and report is not None:
+                            report.setdefault(x['n'], x)
+                if e['k'] == 'DeclStmt':
+                    for d in e.get('decls', []):
+                        dead.discard(d['n'])      # a declaration (with or without initialiser) starts a new object
+                for x in reversed(list(cfg.local_walk(e))):
+                    if x['k'] == 'BinaryOperator' and x['op'] == '=' and F.strip(x['c'][0])['k'] == 'DeclRefExpr':
+                        dead.discard(F.strip(x['c'][0])['n'])
+                    if x['k'] == 'CallExpr' and x.get('callee') in KILL_I + KILL_B:
+                        dead |= kills(x)
+            return dead
+        inn = {b: set() for b in cfg.blocks}
+        changed = True
+        it = 0
+        while changed and it < 50:
+            changed = False
+            it += 1
+            for b in cfg.rpo():
+                out = transfer(cfg.blocks[b], inn[b], None)
+                for s_ in cfg.live_succs(b):
+                    if not out <= inn[s_]:
+                        inn[s_] |= out
+                        changed = True
+        rep = {}
+        for b in cfg.blocks:
+            transfer(cfg.blocks[b], inn[b], rep)
+        n += 1
+        run.ob(rule, (g.name,), not rep, {'function': g.name, 'deleting calls': len(calls), 'tied variables': {k: sorted(v) for k, v in pairs.items()}} if n % 6 == 1 or rep else None)
+        for v, x in rep.items():
+            run.violation(rule, g, 'use of %s behind the deletion of its instruction' % v, '`%s` is read at line %d on a path behind a call that deleted the '
+                          'instruction it belongs to (the bb_insn was returned to the allocator): use after free, and the block is freed again '
+                          'when the function\'s CFG is destroyed' % (v, x['l']), line=x['l'])
+    if n < 5:
+        raise F.AnalysisBroken('RF137: only %d functions with deleting calls' % n)
+    return n
